@@ -14,9 +14,22 @@ Oracle per case (constructor NAME, well-typed value V):
         a `cond?true` field is compared on presence only, an absent optional field may be missing or None,
         int128/int256 are compared as lower-case hex, `bytes` holding a nested boxed object comes back as that object.
   (b) is evaluated on the reference bytes, so it stays meaningful when (a) fails.
+Histories (plain data in the case, see _earlier_calls): case['before'] lists calls the same process made EARLIER - the value's
+  bool/int/float twin serialised (1 for a Bool, False for the integer 0, 7.0 for 7: values of another type that compare and hash
+  equal; the library accepts them silently, they are not well-typed and nothing is asserted about THEIR result), the value
+  itself serialised, its bytes parsed, the schema printed, the same on another TlSchemas object. Afterwards (a) and (b) must hold
+  for the well-typed value exactly as without them. case['fresh'] re-imports pytoniq_core.tl first, so module-level state
+  starts as in a new process (needed for the few values - True/False/0/1 - every process meets early). A failure that disappears
+  when the case is repeated without its history in a fresh import gets the suffix /after-earlier-calls.
+Designed coincidences: integers whose wire bytes equal a constructor id (boolTrue, boolFalse, any known id) in int, #, long,
+  int128, int256 fields, vector elements and flags words (sub-check words-equal-to-constructor-ids; also 1 in 6 generated
+  integers).
 Block ids: BlockIdExt.from_bytes(to_bytes(x)) == x, from_dict(to_dict(x)) == x, hash(x) works, equal ids hash equally and
-  find each other in dicts/sets.  BlockId (which defines no __eq__) is compared field by field and only has to be
-  hashable and retrievable by the same object.
+  find each other in dicts/sets (built now and built earlier); equality is checked in both directions.  BlockId (which defines no
+  __eq__) is compared field by field and only has to be hashable and retrievable by the same object.  All of it is checked three
+  times: before anything was formatted, after the caller formatted (repr / str / f-string / % / all of them) the ids named in
+  case['printed'] - mostly exactly ONE of several equal ids -, and after those in case['printed_late'] too; to_bytes / to_dict /
+  hash of an id do not change when it is formatted.
 
 Deliberately NOT asserted
   * anything about the byte layout of BlockIdExt.to_bytes (the example documents it as big-endian, not TL);
@@ -25,7 +38,7 @@ Deliberately NOT asserted
   * opaque `bytes`/`string` contents that start with a known constructor id (documented auto-deserialisation turns them
     into objects; generated opaque data never starts with one), and nested objects inside the two documented
     "untouchable" fields (adnl.message.part.data, overlay.broadcastFec.data);
-  * behaviour on ill-typed values, strings longer than 2^24-1 bytes, `double` and the other pseudo types;
+  * the RESULT of serialising ill-typed values (they only occur as earlier calls whose outcome is ignored), strings longer than 2^24-1 bytes, `double` and the other pseudo types;
   * constructors of tonlib_api.tl (not part of the statement) and names declared differently in several bundled files
     (ton.blockId): which declaration wins depends on os.listdir order, not on the code alone;
   * BlockIdExt.__eq__ against foreign types, BlockId value equality.
@@ -64,8 +77,14 @@ RULE = (f'case = (constructor name, value tree). reftl parses lite_api.tl + ton_
         'random draws constructor and value with Hypothesis (nesting <= 4, vectors 0..3 and 15..40, byte/text lengths '
         '0..12, 252..257, 1000, 70000; ints over the full range with boundary bias; polymorphic fields through every '
         'supported alternative; bytes fields opaque - never starting with a known constructor id - or a nested boxed '
-        'object). classes: ctor=<name> histogram = constructors hit. non-trivial = value contains a string, bytes, '
-        'vector, nested object or conditional field; distinct = distinct case')
+        'object; 1 in 6 integers is a word that equals boolTrue / boolFalse / another constructor id). Every 5th random case and '
+        '3 of the k values per constructor carry a history of earlier calls (bool/int/float twin of the value serialised first, '
+        'the value itself, a parse, a printed schema); earlier-calls-in-a-fresh-library does the same with the TL modules '
+        're-imported per case and values made of True/False/0/1; words-equal-to-constructor-ids is the grid of every known id x '
+        'int/#/long hosts (every 16th: vectors, int128/256, flags words). block-id-helpers: random ids, hex or bytes arguments, '
+        'and which of the equal ids were formatted (and how) before the comparisons. '
+        'classes: ctor=<name> histogram = constructors hit, earlier-call=<op>, formatted-first=<who>. non-trivial = value '
+        'contains a string, bytes, vector, nested object or conditional field; distinct = distinct case')
 ASSUMPTIONS = ['harness/ref/reftl.py: own parser of the .tl text, CRC-32 ids (anchored on tcp.ping, pub.ed25519, '
                'ton.blockId, liteServer.getMasterchainInfo, boolTrue/boolFalse and the ids pinned in tests/test_tl.py), '
                'TL binary encoding per core.telegram.org/mtproto/serialize', 'zlib.crc32, hashlib']
